@@ -33,7 +33,8 @@ Inductive verb :=
 | VUnserved          (* no request_type, LaunchWorker, ReturnListenSockets *)
 | VHardStop
 | VSoftStop
-| VLoad (n : nat).   (* load_state of a file holding n acceptable requests *)
+| VLoad (n : nat) (bad : bool).   (* load_state of a file holding n acceptable requests; [bad]: followed by a
+                                    record that does not parse (the task is cancelled, the client told failure) *)
 
 Record task := mkTask {
   t_id : nat;
@@ -121,6 +122,12 @@ Definition bump_rq (h : hub) : hub :=
 Definition burn_ids (h : hub) (b : nat) : hub :=
   mkHub (workers h) (tasks h) (in_flight h) (now h) (next_task h + b) (next_rq h) (stopping h) (timeout h) (gone h).
 
+(** [Server::cancel_task] *)
+Definition cancel_task (h : hub) (tid : nat) : hub :=
+  mkHub (workers h) (filter (fun t => negb (Nat.eqb (t_id t) tid)) (tasks h))
+        (if cancel_purges then filter (fun e => negb (Nat.eqb (snd e) tid)) (in_flight h) else in_flight h)
+        (now h) (next_task h) (next_rq h) (stopping h) (timeout h) (gone h).
+
 (** [Server::handle_client_request] *)
 Definition client_request (h : hub) (c : nat) (v : verb) : hub * list out :=
   let rq := next_rq h in
@@ -141,10 +148,11 @@ Definition client_request (h : hub) (c : nat) (v : verb) : hub * list out :=
     | VSoftStop =>
       let '(h1, tid) := new_task h c (KStop false) tmo_softstop in
       let '(h2, o) := scatter_on h1 rq tid 0 in (h2, ONotice c rq :: o)
-    | VLoad n =>
+    | VLoad n bad =>
       let '(h1, tid) := new_task h c KLoad tmo_load in
       let '(h2, o) := scatter_many h1 rq tid (seq 1 n) in
-      (h2, ONotice c rq :: o ++ [ONotice c rq])
+      if bad then (cancel_task h2 tid, ONotice c rq :: o ++ [OFinal c rq SFailure])
+      else (h2, ONotice c rq :: o ++ [ONotice c rq])
     end in
   (bump_rq h', o).
 
